@@ -7,6 +7,7 @@ import (
 	"github.com/ohler55/ojg/internal/vx"
 	"github.com/ohler55/ojg/jp"
 	"github.com/ohler55/ojg/oj"
+	"github.com/ohler55/ojg/sen"
 )
 
 // ---- documents: concrete skeletons with symbolic digit leaves ----
@@ -204,7 +205,8 @@ func VerifC17_Match() {
 			filters = append(filters, i)
 		}
 	}
-	load := vx.Choose("load", 2+vx.Param("SPLIT", 0)) // 0: Match on []byte, 1: MatchLoad 1-byte reads, 2: MatchLoad split in two
+	// 0: oj.Match on []byte, 1: oj.MatchLoad 1-byte reads, 2: sen.Match, 3: sen.MatchLoad 1-byte reads, 4: oj.MatchLoad split in two
+	load := vx.Choose("load", 4+vx.Param("SPLIT", 0))
 	doc := mDoc(dk)
 	vx.Key("doc", dk)
 	vx.Key("targets", desc)
@@ -228,6 +230,10 @@ func VerifC17_Match() {
 			err = oj.Match(append([]byte{}, doc...), cb, targets...)
 		case 1:
 			err = oj.MatchLoad(&chunkReader{data: append([]byte{}, doc...), chunks: chunking(len(doc), len(doc))}, cb, targets...)
+		case 2:
+			err = sen.Match(append([]byte{}, doc...), cb, targets...)
+		case 3:
+			err = sen.MatchLoad(&chunkReader{data: append([]byte{}, doc...), chunks: chunking(len(doc), len(doc))}, cb, targets...)
 		default:
 			err = oj.MatchLoad(&chunkReader{data: append([]byte{}, doc...), chunks: []int{vx.IntIn("split", 1, 30)}}, cb, targets...)
 		}
